@@ -179,11 +179,19 @@ def rule_trunc(ctx):
     raises = [n for n in cfg.stmt_nodes() if n.kind == 'raisestmt']
     ok = False
     detail = 'no raise found'
+    reads = G._stream_read_calls(f)
+    rvar = None
+    for rc in reads:
+        st = G._stmt_of(rc, f.node)
+        if isinstance(st, ast.Assign) and isinstance(st.targets[0], ast.Name):
+            rvar = st.targets[0].id
+    szpar = f.params()[1] if len(f.params()) > 1 else 'size'
     for r in raises:
         kind, name = _raised_class(ctx, f, r.ast)
         deps = [(b.ast.test, lab) for b, lab in cfg.control_deps(r) if b.kind == 'test']
         texts = [(norm(t), lab) for t, lab in deps]
-        if name.endswith('EndOfStreamError') and any(t in ('not received and size != 0', 'size != 0 and (not received)', 'size != 0 and not received') and lab == 'true' for t, lab in texts):
+        want = ('not %s and %s != 0' % (rvar, szpar), '%s != 0 and (not %s)' % (szpar, rvar), '%s != 0 and not %s' % (szpar, rvar))
+        if name.endswith('EndOfStreamError') and any(t in want and lab == 'true' for t, lab in texts):
             ok = True
         detail = 'raise %s under %s' % (name, texts)
     ctx.ob('A3.trunc', f, 'empty read of a non-zero size raises EndOfStreamError', ok, detail)
@@ -230,8 +238,6 @@ PARTIAL_REASONS = {
     ('codec.ber.decoder.ObjectIdentifierPayloadDecoder.valueDecoder', 'oid[0]'):
         'the arc loop runs at least once on the non-empty chunk (guarded above) and every iteration that does not '
         'raise appends one arc, so `oid` is non-empty after the loop',
-    ('codec.ber.decoder.ObjectIdentifierPayloadDecoder.valueDecoder', 'chunk[0]'):
-        'only inside the error message of the final else arm; `chunk` is non-empty (guarded above)',
 }
 
 
@@ -381,8 +387,21 @@ def rule_partial(ctx):
         raise AnalysisError('A3.partial found only %d partial-operation sites' % nsites)
 
 
+LENGTH_PRESERVING = ('octs2ints', 'list', 'tuple', 'bytes', 'bytearray')
+
+
 def _guarded(ctx, f, fam, cfg, rd, usenode, var, idx, expr):
     defs_at_use = rd[usenode].get(var, set())
+    # look through `v = octs2ints(v)`-style redefinitions: they keep the length
+    for _ in range(3):
+        if len(defs_at_use) == 1:
+            d = next(iter(defs_at_use))
+            if d.kind == 'stmt' and isinstance(d.ast, ast.Assign) and isinstance(d.ast.value, ast.Call) and \
+                    call_name(d.ast.value) in LENGTH_PRESERVING and len(d.ast.value.args) == 1 and \
+                    isinstance(d.ast.value.args[0], ast.Name) and d.ast.value.args[0].id == var:
+                defs_at_use = rd[d].get(var, set())
+                continue
+        break
     # (0) short-circuit guard in the same expression: `v and v[0]...`
     cur = expr
     for a in ancestors(expr, f.node):
